@@ -32,6 +32,7 @@ func runC09(r *Report, p *Program) {
 	c09R5(h, dm)
 	c09R6(h, dm)
 	lineCountingRule(h, "R7")
+	c09R8(h)
 }
 
 // loopOverParam finds the loop whose continuation test compares with len(<parameter named name>).
